@@ -7,8 +7,9 @@ import SquidModel.Base.Bytes
 namespace SquidModel.Cache.Vary
 open SquidModel
 
-/-- `delim[2]` with `del = ','`: `" ,,\t\r\n"` — what is skipped before an item -/
-def isDelim2 (c : UInt8) : Bool := c == 32 || c == 44 || c == 9 || c == 13 || c == 10
+/-- `delim[2]` with `del = ','`: `" ,,\t\r\n\v\f"` — what is skipped before an item (since /repo 43aac5c every `xisspace`
+octet, so that an element made of VT/FF only is skipped like any other empty element) -/
+def isDelim2 (c : UInt8) : Bool := c == 32 || c == 44 || c == 9 || c == 13 || c == 10 || c == 11 || c == 12
 
 /-- `xisspace` (C locale): SP, HT, LF, VT, FF, CR -/
 def isSpace (c : UInt8) : Bool := c == 32 || (9 ≤ c && c ≤ 13)
@@ -38,8 +39,8 @@ def getItem (s : Bytes) : Bytes × Bytes :=
   let n := scan false s1
   (rtrim (s1.take n), s1.drop n)
 
-/-- `while (strListGetItem(...))`: the loop ends at the first call that returns 0 (an item that is empty after rtrim —
-the end of the string, or an item made of VT/FF only). Fuel = remaining length + 1 (every successful call consumes
+/-- `while (strListGetItem(...))`: the loop ends at the first call that returns 0 (an item that is empty after rtrim:
+the end of the string). Fuel = remaining length + 1 (every successful call consumes
 at least one octet). -/
 def itemsFuel : Nat → Bytes → List Bytes
   | 0, _ => []
